@@ -134,6 +134,22 @@ fn maybe_exempt_soft_family(seed: u64, sc: &mut Scenario, one_in: usize) {
     }
 }
 
+/// On a fraction of the seeds the scenario's world is replaced by a forest of independent small worlds.
+fn maybe_forest(seed: u64, sc: &mut Scenario, params: &GenParams, one_in: usize, tier: Tier) {
+    let mut r = Rng::stream(seed, "forest");
+    if !r.chance(1, one_in) {
+        return;
+    }
+    let kmax = if tier == Tier::Quick { 90 } else { 220 };
+    let k = r.range(8, kmax);
+    let sat_bias = r.chance(3, 4);
+    let (w, p) = crate::gen::gen_forest(&mut r, params, k, sat_bias);
+    sc.world = w;
+    sc.solves[0].problem = p;
+    // the budgets scale with the size
+    sc.poll_budget = 30_000 + 3_000 * k as u64;
+}
+
 fn swarm(seed: u64, base: GenParams, tier: Tier) -> GenParams {
     // swarm: perturb the shape parameters per run
     let mut r = Rng::stream(seed, "swarm");
@@ -268,7 +284,9 @@ impl Property for C02 {
         } else {
             GenParams::conflict_rich()
         };
-        let mut sc = std_scenario(seed, &swarm(seed, base, tier), None);
+        let params = swarm(seed, base, tier);
+        let mut sc = std_scenario(seed, &params, None);
+        maybe_forest(seed, &mut sc, &params, 40, tier);
         sc.capture_state = true;
         vec![sc]
     }
@@ -717,7 +735,10 @@ impl Property for C05 {
         if seed % 2 == 0 {
             base.max_soft = 2;
         }
-        vec![std_scenario(seed, &swarm(seed, base, tier), None)]
+        let params = swarm(seed, base, tier);
+        let mut sc = std_scenario(seed, &params, None);
+        maybe_forest(seed, &mut sc, &params, 24, tier);
+        vec![sc]
     }
     fn judge(&self, sc: &Scenario) -> Verdict {
         let rec = execute(sc);
